@@ -1,6 +1,8 @@
 package carto
 
 import (
+	"math"
+
 	"github.com/peterstace/simplefeatures/geom"
 )
 
@@ -45,7 +47,10 @@ func (a *AzimuthalEquidistant) Forward(lonLat geom.XY) geom.XY {
 	λ0r := dtor(a.centerLonLat.X)
 	φ0r := dtor(a.centerLonLat.Y)
 
-	ρ := R * acos(sin(φ0r)*sin(φr)+cos(φ0r)*cos(φr)*cos(λr-λ0r))
+	// Rounding can push the cosine of the angular distance slightly outside
+	// of [-1, 1] (e.g. at the center itself), where acos would give NaN.
+	cosc := sin(φ0r)*sin(φr) + cos(φ0r)*cos(φr)*cos(λr-λ0r)
+	ρ := R * acos(math.Max(-1, math.Min(1, cosc)))
 	θ := atan2(
 		cos(φr)*sin(λr-λ0r),
 		cos(φ0r)*sin(φr)-sin(φ0r)*cos(φr)*cos(λr-λ0r),
